@@ -8,6 +8,9 @@ every style / indent / tab offset, rows continued on the next timecode line, sev
 in the middle or at the end, control codes doubled / single / mixed per code; row text of 1-32 cells from EVERY code of
 the basic / special / extended tables (extended after a stand-in) incl. leading blanks, double blanks, the transparent
 space, trailing blanks, characters erased by a backspace; drop / non-drop timecode; inter-line gaps 0..300 frames.
+Wave 7: rows WITHOUT a displayable character (only null padding 8080 / only blanks / only control codes / a character
+erased again) at the first, a middle and the last position of a passage and right in front of a mode switch (counted under
+shapes filler_row_*): they show nothing and the captions around them must still be conserved, ordered and chained.
 NOT generated (counted nowhere because never produced): mid-row codes inside a row (their blank cell makes the expected
 text ambiguous; they are covered by C05), offsets, simulate_roll_up (for the judged read).
 Options and histories: every program is read with a `lang` drawn from LANGS; a third by a reader OBJECT that has already
@@ -46,6 +49,7 @@ def gen_program(rng):
     cur = []
     rows = []           # expected row texts (trailing blanks are not shown)
     buf_text = []       # per displayed buffer: does it show a visible character (a buffer of blanks yields no caption)
+    buf_cells = []      # per displayed buffer: does it hold any cell (blank cells included)
     buf_rows = []       # screen rows used in the displayed buffer
     events = []         # flush events [kind, (line index, k)] for the event-level model; None if not expressible
     expressible = True
@@ -62,9 +66,21 @@ def gen_program(rng):
 
     # backspaces in 40% of the programs only: they are outside the domain of the independent 608 reading (sent608)
     p_bs = 0.04 if rng.random() < 0.4 else 0.0
+    # wave 7: rows WITHOUT any displayable character in a quarter of the programs (at the first / a middle / the last
+    # position of a passage, and right in front of a mode switch): only null-padding words 8080, only blanks, only
+    # control codes (mode command / carriage return / preamble code and nothing else), a character erased again. Such a
+    # row may leave an (empty) text node in the buffer; it shows nothing, and the captions around it must still chain.
+    p_filler = rng.choice([0.0, 0.0, 0.0, 0.3])
+    force_switch = False
     for i in range(nrows):
         toks = g.rand_tokens(rng, rng.choice([1, 2, 3, 5, 8, 13, 20, 31, 32, rng.randint(1, 32)]), p_special=0.07,
                              p_ext=0.09, p_bs=p_bs, blank_ends=0.35, sp9=True)
+        filler = None
+        if rng.random() < p_filler:
+            filler = rng.choice(["8080", "8080", "blanks", "codes-only", "erased"])
+            count("filler_row_" + filler + ("_first" if i == 0 else "_last" if i == nrows - 1 else "_middle"))
+            toks = {"8080": [], "codes-only": [], "blanks": [" "] * rng.choice([1, 2, 3, 4]),
+                    "erased": [rng.choice(g.BASIC_VISIBLE), ("bs",)]}[filler]
         text = g.tokens_text(toks).rstrip()
         # ---- mode command in front of the row?
         cmd = None
@@ -72,6 +88,10 @@ def gen_program(rng):
             cmd = mode
         else:
             r = rng.random()
+            if force_switch:
+                r = 0.40                                               # a mode switch right after a filler-only row
+                count("mode_switch_after_filler_row")
+                force_switch = False
             if r < 0.25:
                 cmd = mode                                             # re-sent
                 count("mode_resent")
@@ -130,6 +150,7 @@ def gen_program(rng):
         flushed = cmd is not None or cr
         if flushed:
             buf_text.append(False)                                     # a new displayed buffer starts
+            buf_cells.append(False)
             buf_rows = []
         # ---- preamble address code
         need_pac = not flushed or last_pos is None
@@ -159,6 +180,10 @@ def gen_program(rng):
             count("row_without_preamble")
             buf_rows.append(last_pos[0])
         tw = g.tokens_words(toks, dd)
+        if filler == "8080":
+            tw = [rng.choice(["8080", "8080", "8080"])] * rng.choice([1, 1, 2, 3])    # null padding only
+        if filler is not None and i < nrows - 1 and rng.random() < 0.5:
+            force_switch = True
         if rng.random() < 0.12 and len(tw) > 2:
             cut = rng.randint(1, len(tw) - 1)                           # the row continues on the next timecode line
             cur += ws + tw[:cut]
@@ -171,6 +196,9 @@ def gen_program(rng):
         nonempty = True
         rows.append(text)
         buf_text[-1] = buf_text[-1] or bool(text)
+        # wave 7: a buffer that holds blank cells only MAY come back as a caption of blanks (roll-up rows of blanks do, a
+        # paint-on passage of blanks does not): both are accepted (buffers .. buffers_max)
+        buf_cells[-1] = buf_cells[-1] or bool(g.tokens_text(toks))
         if not text:
             # a row of blanks / erased characters only: its buffer is flushed like any other but yields no caption, which
             # the event-level model cannot express
@@ -198,8 +226,13 @@ def gen_program(rng):
     if expressible and t0 is not None:
         ev = [wire_pos(t0), [[k] + wire_pos(p) for k, p in events], pending]
     buffers = sum(buf_text)
+    # wave 7: a buffer without a visible character that is followed by another buffer: the reader has already ended the
+    # caption before it (carriage return / leaving roll-up force the end) and the next caption starts only when the next
+    # mode command moves the clock - a GAP in the chain (known finding C16-gap-after-empty-row); at most one per site
+    gap_sites = sum(1 for v in buf_text[:-1] if not v)
     return {"doubled": str(doubled), "drop": drop, "rows": rows, "buffers": buffers, "stream": stream, "events": ev,
-            "shapes": shapes, "final_mode": mode}
+            "shapes": shapes, "final_mode": mode, "buffers_max": sum(1 for v, c in zip(buf_text, buf_cells) if v or c),
+            "gap_sites": gap_sites}
 
 
 LANGS = ["en-US", "en-US", "fr", "de-DE", "es-419", "und", "x"]
@@ -302,7 +335,15 @@ def run(ctx):
     obs = [sccobs.observe(p["stream"], lang=p["lang"], history=p["history"], outcomes=houts) for p in progs]
     dist["earlier_reads_ended"] = {k: houts.count(k) for k in sorted(set(houts))}
     models = sccobs.model_batch([(p["stream"], 0) for p in progs])
-    oks = oracle_batch([(1601, [p["rows"], p["buffers"], obs3(o)]) for p, o in zip(progs, obs)])
+    # (a buffer of blank cells only may or may not come back as a caption of blanks: the number of screens may be any
+    #  value from `buffers` to `buffers_max`; the oracle is asked for each and the first that holds counts)
+    okreq = [(i, nb) for i, p in enumerate(progs) for nb in range(p["buffers"], p["buffers_max"] + 1)]
+    okans = oracle_batch([(1601, [progs[i]["rows"], nb, obs3(obs[i])]) for i, nb in okreq])
+    oks = [None] * len(progs)
+    for (i, nb), a in zip(okreq, okans):
+        if oks[i] is None or (oks[i][0] != 1 and a[0] == 1):
+            oks[i] = a
+    dist["programs_with_blank_only_buffers"] = sum(1 for p in progs if p["buffers_max"] > p["buffers"])
     # the INDEPENDENT 608 reading of the word stream (spec/SpecScc16Sent.v: Spec608 tables + the 608 doubling rule; theorem
     # C16_rollup_painton_conserved_608 for the model): [dom608, sent608] of the text, tokenised by the Coq tokeniser
     sent = oracle_batch([(1603, p["stream"]) for p in progs])
@@ -349,12 +390,48 @@ def run(ctx):
             dist["independent_608_reading"]["outside_dom608"] += 1
         if ok[0] != 1:
             kind = "not-conserved" if ok[1] != 1 else ("chain-broken" if ok[2] != 1 else "screens-merged-or-split")
+            shape = "other"
+            if kind == "chain-broken" and p["gap_sites"] and isinstance(o3, Ok) and close3(o3, obs3(m)):
+                # known findings C16-gap-after-empty-row / C16-blank-only-row: ONLY the END of at most one screen per row /
+                # passage without a visible character is wrong (gap-...: it ends early, before the next begins; blank-...:
+                # the program has a buffer of blank cells only and the end is 0 / the 4 s default / beyond the next start);
+                # starts, order, text and the number of screens are as the statement says, and the implementation does what
+                # the faithful decoder model does
+                S = screens([[c[0], c[1]] for c in o3.v])
+                damaged, pure_gaps, bad = 0, True, False
+                for k, sc in enumerate(S):
+                    nxt = S[k + 1] if k + 1 < len(S) else None
+                    if nxt is None:
+                        if not sc[0] < sc[1]:
+                            damaged += 1
+                            pure_gaps = False
+                    elif not sc[0] < nxt[0]:
+                        bad = True                                     # the order of the starts must be intact
+                    elif abs(sc[1] - nxt[0]) <= sccobs.TOL_T:
+                        bad = bad or not sc[0] < sc[1]
+                    else:
+                        damaged += 1                                   # only the END of this screen is wrong
+                        pure_gaps = pure_gaps and sc[0] < sc[1] < nxt[0]
+                if not bad and 1 <= damaged <= p["gap_sites"] and p["buffers"] <= len(S) <= p["buffers_max"]:
+                    if pure_gaps:
+                        shape = "gap-after-empty-row"
+                    elif p["buffers_max"] > p["buffers"]:
+                        shape = "blank-only-row"
             what = {"not-conserved": "the returned caption texts are not the transmitted rows (every character once, in "
                                      "order, rows kept together)",
                     "chain-broken": "captions are not ordered with start < end and each ending where the next begins",
                     "screens-merged-or-split": f"{p['buffers']} buffers were displayed one after the other but the "
                                                f"captions do not form that many distinct (start, end) screens"}[kind]
-            res["violations"].append({"kind": kind, "replay": "stream", "what": what, "input": desc,
+            if shape == "blank-only-row":
+                what = ("a roll-up row of blank cells only is stored as a caption, takes part in the timing chain and is "
+                        "dropped afterwards: the caption before it keeps a wrong end (0, the 4 s default, or past the next "
+                        "start)")
+            if shape == "gap-after-empty-row":
+                what = ("a row / passage without a displayable character leaves a gap: the caption before it has already "
+                        "been ended (carriage return / leaving roll-up) and the next caption starts only at the next mode "
+                        "command")
+            res["violations"].append({"kind": kind, "shape": shape, "replay": "stream", "what": what, "input": desc,
+                                      "buffers_max": p["buffers_max"],
                                       "stream": p["stream"], "rows": p["rows"], "buffers": p["buffers"],
                                       "lang": p["lang"], "history": p["history"],
                                       "impl_obs": [[str(c[0]), str(c[1]), c[2]] for c in o3.v] if isinstance(o3, Ok)
@@ -406,5 +483,5 @@ def replay(ctx, rec):
     o = sccobs.observe(rec["stream"], lang=rec.get("lang"), history=rec.get("history"))
     if rec.get("buffers") == 0 and o == Err(1):
         return False, "no visible text, no captions: " + repr(o)
-    ok = oracle1(1601, [rec["rows"], rec["buffers"], obs3(o)])
-    return ok[0] != 1, repr(obs3(o))[:600]
+    oks = [oracle1(1601, [rec["rows"], nb, obs3(o)]) for nb in range(rec["buffers"], rec.get("buffers_max", rec["buffers"]) + 1)]
+    return all(ok[0] != 1 for ok in oks), repr(obs3(o))[:600]
